@@ -95,8 +95,8 @@ def andnot_si := zip32 fun a b => ~~~a &&& b
 def srai_epi32 (a : Reg) (n : Nat) : Reg := map32 (fun x => x.sshiftRight (min n 31)) a
 def srli_epi32 (a : Reg) (n : Nat) : Reg := map32 (fun x => if n > 31 then 0 else x >>> n) a
 def slli_epi32 (a : Reg) (n : Nat) : Reg := map32 (fun x => if n > 31 then 0 else x <<< n) a
-def abs32 (x : BitVec 32) : BitVec 32 := if x.slt 0 then -x else x
-def abs64 (x : BitVec 64) : BitVec 64 := if x.slt 0 then -x else x
+def abs32 (x : BitVec 32) : BitVec 32 := if x.slt 0#32 then -x else x
+def abs64 (x : BitVec 64) : BitVec 64 := if x.slt 0#64 then -x else x
 def abs_epi32 := map32 abs32
 def abs_epi64 := map64 abs64
 def smin32 (a b : BitVec 32) : BitVec 32 := if a.slt b then a else b
@@ -198,7 +198,7 @@ def reduce_add_epi64 (a : Reg) : BitVec 64 := (List.range 8).foldl (fun s k => s
 /-- IEEE negate / abs on bit patterns -/
 def fneg32 (x : BitVec 32) : BitVec 32 := x ^^^ sign32
 def fneg64 (x : BitVec 64) : BitVec 64 := x ^^^ sign64
-def fabs32 (x : BitVec 32) : BitVec 32 := x &&& ~~~sign32
-def fabs64 (x : BitVec 64) : BitVec 64 := x &&& ~~~sign64
+def fabs32 (x : BitVec 32) : BitVec 32 := ~~~sign32 &&& x
+def fabs64 (x : BitVec 64) : BitVec 64 := ~~~sign64 &&& x
 
 end Fastor.Simd
